@@ -20,8 +20,10 @@ package main
 // fires when nothing else can happen, earliest closure start first. Under that assumption
 //   closure calls  <= sequential demand + W        (the W items the workers hold when the collector stops)
 //   input pulls    <= closure calls + 1            (the item the feeder holds)
-// where the sequential demand is needed (+1 when the consumer is a completely consumed top(k): finding
-// F08a); both are <= needed + W + 1 resp. needed + W + 2, and they are the same for n = 30 and n = 10^11.
+// where the sequential demand is what the sequential evaluation (NumCPU = 1) of the same scenario is
+// measured to call: needed, +1 when the consumer is a completely consumed top(k) (finding F08a), +1 for
+// the copy loop of multiUse. For the consumers of the property that is <= needed + W + 1 closure calls
+// (multiUse: needed + W + 2), and the maxima are the same for n = 30 and n = 10^11.
 
 import (
 	"fmt"
@@ -334,7 +336,7 @@ func runCoop(ctx *bex.Ctx) {
 		need0, need1 := int64(cc.a.callsLo[0]), int64(cc.a.callsLo[1])
 		ra1 := r.maxEver[1] - need1
 		if st.MaxThreads > 2 {
-			ctx.Outcome(fmt.Sprintf("%s/parallel/max-closure-calls-beyond-sequential-demand=%d", name, r.maxEver[1]-int64(cc.seqNeed)))
+			ctx.Outcome(fmt.Sprintf("%s/parallel/max-closure-calls-beyond-sequential-demand=%d", name, r.maxEver[1]-seqTicks[1]))
 		} else {
 			ctx.Outcome(name + "/consumer-stops-in-the-sequential-phase")
 		}
@@ -352,8 +354,11 @@ func runCoop(ctx *bex.Ctx) {
 		if ref != cc.a.res.String() {
 			ctx.Violate("sequential result differs from the value the needed prefix determines", repro, cc.a.res.String(), ref, "")
 		}
-		if seqTicks[1] != int64(cc.seqNeed) {
-			ctx.Violate("sequential evaluation: closure calls differ from the demand model", repro, fmt.Sprint(cc.seqNeed), fmt.Sprint(seqTicks), "")
+		// the sequential evaluation needs at least the needed prefix and at most what the read-ahead of a
+		// completely consumed top(k) (finding F08a) and of the copy loop of multiUse add
+		seq1 := seqTicks[1]
+		if seq1 < int64(cc.a.callsLo[1]) || seq1 > int64(cc.seqNeed) {
+			ctx.Violate("sequential evaluation: closure calls outside the demand model", repro, fmt.Sprintf("%d..%d", cc.a.callsLo[1], cc.seqNeed), fmt.Sprint(seqTicks), "")
 		}
 		// oracle 2: every schedule terminates with the sequential result
 		for obs := range st.Outcomes {
@@ -389,14 +394,14 @@ func runCoop(ctx *bex.Ctx) {
 		}
 		if sc.Timed && !st.Capped {
 			// upper bound under the timing assumption (see the head of this file)
-			hi1 := int64(cc.seqNeed + sc.W)
+			hi1 := seq1 + int64(sc.W)
 			hi0 := hi1 + 1
 			if finite {
 				hi0, hi1 = min64(hi0, sc.N), min64(hi1, sc.N)
 			}
 			if r.maxEver[1] > hi1 || r.maxEver[0] > hi0 {
 				ctx.Violate("parallel stage reads further ahead than the workers and the feeder can hold", repro,
-					fmt.Sprintf("closure calls <= %d (sequential demand %d + W), input pulls <= %d", hi1, cc.seqNeed, hi0), fmt.Sprintf("max over all timed schedules: input pulls %d, closure calls %d", r.maxEver[0], r.maxEver[1]), "")
+					fmt.Sprintf("closure calls <= %d (sequential demand %d + W), input pulls <= %d", hi1, seq1, hi0), fmt.Sprintf("max over all timed schedules: input pulls %d, closure calls %d", r.maxEver[0], r.maxEver[1]), "")
 			}
 			// independence of the source length: same maxima for n = 30 and n = 10^11
 			k := key{sc.Stage, sc.Cons, sc.M, sc.W}
